@@ -5,7 +5,7 @@ from ..core import f2b, b2f
 from .. import samples as S, sample_checks as SC, kin, exact as X, oracle
 
 MODULE = "Momtrop.Props.C07Sector"
-THEOREMS = ["Momtrop.C07.rescaling_common", "Momtrop.C07.scaling_def", "Momtrop.C07.removal_step", "Momtrop.C07.last_step", "Momtrop.C07.rescaling_normalises", "Momtrop.C07.permLoop_trace", "Momtrop.C07.chain_nodup", "Momtrop.C07.replay_get", "Momtrop.C07.sector_formula"]
+THEOREMS = ["Momtrop.C07.rescaling_common", "Momtrop.C07.scaling_def", "Momtrop.C07.removal_step", "Momtrop.C07.last_step", "Momtrop.C07.rescaling_normalises", "Momtrop.C07.permLoop_trace", "Momtrop.C07.chain_nodup", "Momtrop.C07.replay_get", "Momtrop.C07.sector_formula", "Momtrop.C07.sector_monotone", "Momtrop.C07.permLoop_trop"]
 RULE = ("accepted connected graphs with 1..3 (quick) / 1..4 (thorough) loops, mixed massive/massless edges, D=1..6 odd and even, "
         "uniform/corner points; pre-rescaling parameters vs the sector formula (mpmath), logged U_tr/V_tr vs the brute-force maximal "
         "monomials of U and F/U (exact), normalisation at the rescaled parameters. Non-trivial: L>=1, >=3 edges, removal order not the identity")
